@@ -16,7 +16,7 @@ let chunk = 1_000_000_000_000_000
 let zchunk = z_of_int chunk
 let rec pow10 k = if k = 0 then 1 else 10 * pow10 (k - 1)
 
-let z_of_string (s : string) : z =
+let z_of_string (s : Stdlib.String.t) : z =
   let neg = String.length s > 0 && s.[0] = '-' in
   let d = if neg then String.sub s 1 (String.length s - 1) else s in
   let n = String.length d in
@@ -39,7 +39,7 @@ let z_of_string (s : string) : z =
 let small_int_of_z = function
   | Z0 -> 0 | Zpos p -> int_of_pos p | Zneg p -> - (int_of_pos p)
 
-let string_of_z (x : z) : string =
+let string_of_z (x : z) : Stdlib.String.t =
   match x with
   | Z0 -> "0"
   | _ ->
@@ -61,7 +61,7 @@ let string_of_z (x : z) : string =
     Buffer.contents b
 
 (* ---- s-expressions ---- *)
-let parse (s : string) : sx =
+let parse (s : Stdlib.String.t) : sx =
   let n = String.length s in
   let i = ref 0 in
   let skip () = while !i < n && (s.[!i] = ' ' || s.[!i] = '\t' || s.[!i] = '\r') do incr i done in
